@@ -481,3 +481,79 @@ func TestVerifPQTrace(t *testing.T) {
 		}
 	}
 }
+
+// TestVerifPQBig: the same contract on queues that grow to thousands of elements and drain again (backing arrays of 1024, 2048,
+// 4096 and 8192 slots filled and emptied through every size), checked after every operation by the driver itself: Len is
+// the number of elements in the queue, Pop returns one of the minimal elements, the heap array holds exactly the elements in
+// the queue, each at the index it was last told.  (Too long for a recorded trace; the rule is the trace specification's.)
+func TestVerifPQBig(t *testing.T) {
+	out := vuOpenOut("VERIF_OUT")
+	defer out.Close()
+	rng := rand.New(rand.NewSource(vuSeed()))
+	ops := 0
+	for _, peak := range []int{900, 1500, 2500, 5000} {
+		w := newVqWorld(peak)
+		check := func(what string) string {
+			if w.q.Len() != len(w.in) {
+				return fmt.Sprintf("%s: Len() = %d with %d elements in the queue", what, w.q.Len(), len(w.in))
+			}
+			if len(w.q.heap.a) != len(w.in) {
+				return fmt.Sprintf("%s: the heap array holds %d elements, the queue %d", what, len(w.q.heap.a), len(w.in))
+			}
+			for i, e := range w.q.heap.a {
+				it := e.(*vqItem)
+				if !w.in[it.id] || it.idx != i {
+					return fmt.Sprintf("%s: slot %d holds element %d (in the queue: %v) which was told index %d", what, i, it.id, w.in[it.id], it.idx)
+				}
+				if i > 0 && w.q.heap.a[(i-1)/2].(*vqItem).prio > it.prio {
+					return fmt.Sprintf("%s: heap order broken at slot %d", what, i)
+				}
+			}
+			return ""
+		}
+		fault := ""
+		step := func(op string, x, p int) {
+			if fault != "" {
+				return
+			}
+			minBefore := 1 << 30
+			for id := range w.in {
+				if pr := w.items[id].prio; pr < minBefore {
+					minBefore = pr
+				}
+			}
+			ret, err := w.apply(op, x, p)
+			ops++
+			switch {
+			case err != nil:
+				fault = fmt.Sprintf("%s(%d): %v", op, x, err)
+			case op == "Pop" && w.items[ret].prio != minBefore:
+				fault = fmt.Sprintf("Pop returned element %d of priority %d, the minimum was %d", ret, w.items[ret].prio, minBefore)
+			default:
+				if ops%7 == 0 || len(w.in) < 3 || len(w.in)&(len(w.in)-1) == 0 || len(w.in)%256 < 2 {
+					fault = check(fmt.Sprintf("after %s with %d elements (peak %d)", op, len(w.in), peak))
+				}
+			}
+		}
+		for id := 1; id <= peak; id++ {
+			step("Push", id, 1+rng.Intn(50))
+		}
+		for len(w.in) > 0 && fault == "" {
+			if rng.Intn(4) == 0 {
+				for id := range w.in {
+					step("Remove", id, 0)
+					break
+				}
+			} else {
+				step("Pop", 0, 0)
+			}
+		}
+		if fault == "" {
+			fault = check(fmt.Sprintf("drained (peak %d)", peak))
+		}
+		if fault != "" {
+			out.Emit(map[string]interface{}{"ev": "fault", "err": fault, "peak": peak})
+		}
+	}
+	out.Emit(map[string]interface{}{"ev": "big", "ops": ops})
+}
